@@ -13,7 +13,7 @@ import (
 
 func init() {
 	register("C09", propMeta{
-		Explanation:  "Decides the reachability of the recovery routines from the public entry point, and that recovery finishes what it starts: (R1) typestate of the maintenance guard: every early-return guard of Transaction.onIdle reads Transaction fields; at each call site of onIdle at least one writer of each such field must be able to have executed, otherwise the guard is constant and everything behind it is dead code. The field writers, the begun-state gates of their callers (`!HasBegun()` -> error) and the gate of the calling function are derived from the code; (R2) call-graph reachability: Transaction.Begin reaches onIdle, which reaches doPriorityRollbacks, processExpiredTransactionLogs and transactionLog.rollback; (R3) recovery removes what it recovered: every exit of transactionLog.rollback for a non-nil transaction id passes TransactionLog.Remove of that id; doPriorityRollbacks and priorityRollback remove the priority log only after the registry write of the pre-images succeeded (shared with C08.R3), and the pre-images were logged before the flip (shared with C08.R2); (R4) the log replay undoes every persistent commit step in every last-logged state in which the live rollback undoes it (undo table shared with C07.R1); (R5) the log reader imposes no record-size limit that the writer does not have. (R6) the count delta survives the log encoding (shared with C06.R7); (R7) in onIdle the priority rollbacks run before the expired transaction logs are replayed. (R8) = C06.R8.",
+		Explanation:  "Decides the reachability of the recovery routines from the public entry point, and that recovery finishes what it starts: (R1) typestate of the maintenance guard: every early-return guard of Transaction.onIdle reads Transaction fields; at each call site of onIdle at least one writer of each such field must be able to have executed, otherwise the guard is constant and everything behind it is dead code. The field writers, the begun-state gates of their callers (`!HasBegun()` -> error) and the gate of the calling function are derived from the code; (R2) call-graph reachability: Transaction.Begin reaches onIdle, which reaches doPriorityRollbacks, processExpiredTransactionLogs and transactionLog.rollback; (R3) recovery removes what it recovered: every exit of transactionLog.rollback for a non-nil transaction id passes TransactionLog.Remove of that id; doPriorityRollbacks and priorityRollback remove the priority log only after the registry write of the pre-images succeeded (shared with C08.R3), and the pre-images were logged before the flip (shared with C08.R2); (R4) the log replay undoes every persistent commit step in every last-logged state in which the live rollback undoes it (undo table shared with C07.R1); (R5) the log reader imposes no record-size limit that the writer does not have. (R6) the count delta survives the log encoding (shared with C06.R7); (R7) in onIdle the priority rollbacks run before the expired transaction logs are replayed. (R8) = C06.R8. (R9) fs.registryOnDisk.Update, the registry write the log replay uses, refreshes the L2 and L1 handle caches after every successful disk write and evicts them after a failed one, without any condition on the payload (shared with C20.R2): otherwise the deleted mark a crashed writer staged stays cached and keeps blocking later writers although the file is clean.",
 		DoesNotCover: "Ages and timers (5 minutes / 1 hour) are runtime quantities and are not decided; nor is the content of what recovery restores beyond C08's ordering rules.",
 	}, runC09)
 }
@@ -268,6 +268,8 @@ func runC09(c *Ctx) {
 
 	r8 := c.Rule("R8", "the window between writing the store counts and logging the next step is covered by recovery (shared with C06.R8)", 2)
 	storeCountWindowRule(c, r8)
+	r9 := c.Rule("R9", "what recovery repairs on disk it also repairs in the caches: the replay of a dead transaction's log writes handles through fs.registryOnDisk.Update (the locked, per-handle path), which refreshes L2 and L1 after a successful disk write and evicts them after a failed one - unconditionally, the replay's payloads carry no cache duration (shared with C20.R2)", 4)
+	registryUpdateRefreshRule(c, r9)
 
 	r6 := c.Rule("R6", "the count delta the replay has to subtract survives the log encoding (shared with C06.R7)", 3)
 	replayDeltaRule(c, r6)
